@@ -4,6 +4,7 @@ import (
 	"errors"
 	"strconv"
 	"strings"
+	"time"
 
 	"github.com/uhn/ggql/pkg/ggql"
 )
@@ -11,17 +12,45 @@ import (
 // SubSDL is the schema of the subscription workloads (interface-resolver root:
 // a subscription can only be registered from a Resolver.Resolve call, which
 // receives the *Field that NewSubscription needs).
-const SubSDL = `
+const SubSDL = subSDLHead + `
+type Subscription {` + subSDLFields + `
+}
+`
+
+// SubSDLNamed is the same schema with the operation types named through a
+// schema block (the subscription type is not called Subscription).
+const SubSDLNamed = subSDLHead + `
+type Feed {` + subSDLFields + `
+}
+type Subscription {
+  watch(topic: String, sid: Int!): Int
+  other: String
+}
+schema {
+  query: Query
+  mutation: Mutation
+  subscription: Feed
+}
+`
+
+const subSDLFields = `
+  watch(topic: String, sid: Int!): Event!
+  watchAny(topic: String, sid: Int!): Happening
+  watchBatch(topic: String, sid: Int!): [Event!]!
+  tick(topic: String, sid: Int!): Time
+  level(topic: String, sid: Int!): Level
+  nums(topic: String, sid: Int!): [Int]`
+
+const subSDLHead = `
 type Query {
   ping: String
 }
 type Mutation {
   post(topic: String!, n: Int!): Int
 }
-type Subscription {
-  watch(topic: String, sid: Int!): Event!
-  watchAny(topic: String, sid: Int!): Happening
-  watchBatch(topic: String, sid: Int!): [Event!]!
+enum Level {
+  LOW
+  HIGH
 }
 union Happening = Event | Notice
 type Notice {
@@ -101,6 +130,21 @@ func NoticeEvent(n int) bool { return n%3 == 1 }
 // resolve.
 func (w *SubWorld) Expect(sb *SimSub, n int) (msg string, resolveErr bool) {
 	bad := w.BadEvents && BadEvent(n)
+	if w.Leaf != 0 {
+		// a leaf-typed subscription field: no selection set, the message is the
+		// event coerced to the declared type
+		if bad {
+			return "null", true
+		}
+		switch w.Leaf {
+		case 1:
+			return strconv.Quote(time.Unix(1600000000+int64(n), 0).UTC().Format(time.RFC3339Nano)), false
+		case 2:
+			return strconv.Quote(leafLevel(n)), false
+		default:
+			return "[" + strconv.Itoa(n) + "," + strconv.Itoa(n+1) + "]", false
+		}
+	}
 	if w.ListEvents {
 		// a batch of two events: the selection is applied to every member
 		m1, e1 := ExpectFor(sb.SelIndex, n, bad)
@@ -121,6 +165,33 @@ func (w *SubWorld) Expect(sb *SimSub, n int) (msg string, resolveErr bool) {
 	}
 	return msg, false
 }
+
+func leafLevel(n int) string {
+	if n%2 == 0 {
+		return "HIGH"
+	}
+	return "LOW"
+}
+
+// leafEvent is event n of a world with a leaf-typed subscription field, as the
+// Go value an application would publish.
+func (w *SubWorld) leafEvent(n int) interface{} {
+	if w.BadEvents && BadEvent(n) {
+		return unprintable{n}
+	}
+	switch w.Leaf {
+	case 1:
+		return time.Unix(1600000000+int64(n), 0).In(time.FixedZone("east", 3600))
+	case 2:
+		if n%4 < 2 {
+			return ggql.Symbol(leafLevel(n))
+		}
+		return leafLevel(n)
+	}
+	return []int{n, n + 1}
+}
+
+var leafFields = []string{"", "tick", "level", "nums"}
 
 // Event is the reflection flavour of a published event.
 type Event struct {
@@ -303,6 +374,15 @@ type SubWorld struct {
 	// ListEvents: every subscriber subscribes to the list-typed field and every
 	// published event is a batch (a list of two events).
 	ListEvents bool
+	// Leaf (1 Time, 2 enum, 3 list of Int): every subscriber subscribes to a
+	// leaf-typed subscription field (no selection set); the events are Go values
+	// that output coercion changes (time.Time, ggql.Symbol, []int).
+	Leaf int
+	// ReuseSub: the subscription resolver keeps the *ggql.Subscription it made
+	// for a subscriber and hands the same object back when that subscriber
+	// subscribes again.
+	ReuseSub bool
+	keptSubs map[int]*ggql.Subscription
 	// BadEvents makes the msg field of the events with BadEvent(n) fail to
 	// resolve (resolver error / value that cannot be coerced to String).
 	BadEvents bool
@@ -350,6 +430,17 @@ func (s subSubscription) Resolve(field *ggql.Field, args map[string]interface{})
 		return nil, errors.New("unknown subscriber " + strconv.Itoa(sid))
 	}
 	sub.Args = args
+	if s.w.ReuseSub {
+		if ks := s.w.keptSubs[sid]; ks != nil {
+			return ks, nil
+		}
+		ks := ggql.NewSubscription(sub, field, args)
+		if s.w.keptSubs == nil {
+			s.w.keptSubs = map[int]*ggql.Subscription{}
+		}
+		s.w.keptSubs[sid] = ks
+		return ks, nil
+	}
 	return ggql.NewSubscription(sub, field, args), nil
 }
 
@@ -367,10 +458,13 @@ func (w *SubWorld) Resolve(field *ggql.Field, args map[string]interface{}) (inte
 }
 
 // NewSubWorld builds a root over the subscription schema.
-func NewSubWorld(env SubEnv) (*SubWorld, error) {
+func NewSubWorld(env SubEnv) (*SubWorld, error) { return NewSubWorldSDL(env, SubSDL) }
+
+// NewSubWorldSDL builds a root over a variant of the subscription schema.
+func NewSubWorldSDL(env SubEnv, sdl string) (*SubWorld, error) {
 	w := &SubWorld{Env: env, Subs: map[int]*SimSub{}}
 	w.Root = ggql.NewRoot(w)
-	if err := w.Root.ParseString(SubSDL); err != nil {
+	if err := w.Root.ParseString(sdl); err != nil {
 		return nil, err
 	}
 	return w, nil
@@ -418,12 +512,20 @@ func (w *SubWorld) Subscribe(sid int) string {
 	if w.ListEvents {
 		field = strings.Replace(field, "watch", "watchBatch", 1)
 	}
+	if w.Leaf != 0 {
+		field = strings.Replace(field, "watch", leafFields[w.Leaf], 1)
+		sel, frag = "", ""
+	}
 	body := field + "(topic: " + topic + ", sid: " + sidText + ") " + sel
 	switch s.Wrap {
 	case 1:
 		body = "... { " + body + " }"
 	case 2:
-		body = "... on Subscription { " + body + " }"
+		tn := "Subscription"
+		if w.Root.GetType("Feed") != nil {
+			tn = "Feed" // the schema names its subscription type through a schema block
+		}
+		body = "... on " + tn + " { " + body + " }"
 	case 3:
 		body = "... @include(if: true) { ... { " + body + " } }"
 	}
@@ -431,7 +533,11 @@ func (w *SubWorld) Subscribe(sid int) string {
 		if w.UnionEvents {
 			body += " refused: watchAny(topic: \"zz\", sid: 99) { __typename }"
 		} else {
-			body += " refused: " + strings.TrimPrefix(field, "w: ") + "(topic: \"zz\", sid: 99) { id }"
+			if w.Leaf != 0 {
+				body += " refused: " + leafFields[w.Leaf] + "(topic: \"zz\", sid: 99)"
+			} else {
+				body += " refused: " + strings.TrimPrefix(field, "w: ") + "(topic: \"zz\", sid: 99) { id }"
+			}
 		}
 	}
 	req := op + " { " + body + " }"
@@ -452,6 +558,9 @@ func (w *SubWorld) SubscriptionDoc(selIndex int, topic string) (src, op string) 
 	fname := "watch"
 	if w.ListEvents {
 		fname = "watchBatch"
+	}
+	if w.Leaf != 0 {
+		return "subscription S($sid: Int!) { " + leafFields[w.Leaf] + "(topic: " + tp + ", sid: $sid) }", "S"
 	}
 	src = "subscription S($sid: Int!) { " + fname + "(topic: " + tp + ", sid: $sid) " + SubSelections[selIndex].Sel + " }"
 	if f := SubSelections[selIndex].Frag; f != "" {
@@ -481,6 +590,9 @@ func (w *SubWorld) SubscribeExe(exe *ggql.Executable, op string, sid int) string
 func (w *SubWorld) Publish(topic string, n int) (int, error) {
 	var ev interface{}
 	bad := w.BadEvents && BadEvent(n)
+	if w.Leaf != 0 {
+		return w.Root.AddEvent(topic, w.leafEvent(n))
+	}
 	if w.UnionEvents {
 		if NoticeEvent(n) {
 			return w.Root.AddEvent(topic, &Notice{ID: n, Text: "n" + strconv.Itoa(n)})
